@@ -44,6 +44,9 @@ class SMCSampler(MCMCSampler):
             preconditioning_transform=preconditioning_transform,
         )
         self.rng = rng or np.random.default_rng()
+        # Remember whether the generator came from the user so that
+        # subclasses do not replace it
+        self._rng_supplied = rng is not None
         self._adapative_target_efficiency = False
 
     @property
